@@ -194,24 +194,45 @@ Section Handler.
         end
     end.
 
+  (* self.plugin.on_client_data(raw) for the existing plugin k *)
+  Definition call_on_client_data (h : handler) (k : N) (raw : bytes) : handler * hres bool :=
+    let '(q, out) := on_client_data k (request h) (ocd h) raw in
+    let h1 := queue_p (note_ocd h raw) q in
+    match out with
+    | OcdReturn => (h1, HOk false)
+    | OcdRaise e => (h1, HErr (canon e))
+    end.
+
+  (* (fix e222aa4) bytes received after the end of the first request belong to the plugin:
+       if self.request.is_complete and self.plugin and self.request.buffer:
+           remainder = self.request.buffer; self.request.buffer = None
+           self.plugin.on_client_data(remainder) *)
+  Definition hand_over_remainder (h : handler) : handler * hres bool :=
+    if is_complete (request h) then
+      match plugin h with
+      | Some k =>
+          match Parser.buffer (request h) with
+          | Some (x :: t) =>
+              let rq := set_buffer_size (request h) None (total_size (request h)) in
+              call_on_client_data (set_request h rq) k (x :: t)
+          | _ => (h, HOk false)
+          end
+      | None => (h, HOk false)
+      end
+    else (h, HOk false).
+
   (* HttpProtocolHandler.handle_data for data is not None; HOk b = `return b` *)
   Definition handle_data (h : handler) (data : bytes) : handler * hres bool :=
     let '(h1, r) :=
       if negb (is_complete (request h)) then
         match parse_first_request h data with
         | (h1, HOk true) => (h1, HOk true)          (* if self._parse_first_request(data): return True *)
-        | (h1, HOk false) => (h1, HOk false)
+        | (h1, HOk false) => hand_over_remainder h1
         | (h1, HErr e) => (h1, HErr e)
         end
       else
         match plugin h with
-        | Some k =>
-            let '(q, out) := on_client_data k (request h) (ocd h) data in
-            let h1 := queue_p (note_ocd h data) q in
-            match out with
-            | OcdReturn => (h1, HOk false)
-            | OcdRaise e => (h1, HErr (canon e))
-            end
+        | Some k => call_on_client_data h k data
         | None => (h, HOk false)
         end in
     match r with
